@@ -15,18 +15,24 @@ CHECKS = {
          "equal the model's and the declarative encoding-set specification.", "DESIGN.md §7 C01, notes/C01.md",
          "aho-corasick's overlapping search enters by its contract (Model/Ac.v); the text-string parser is covered by the "
          "correspondence only."),
- "C02": ("proof", "Executable regex/hex semantics (Spec/Regex.v) and model of the validator / raw / Aho-Corasick loop for hex "
-         "strings; theorems proved for the model parts listed in notes/C02.md, the rest validated per generated pattern by "
-         "evaluating soundness and completeness against the specification in Coq.", "DESIGN.md §7 C02, notes/C02.md",
-         "The implementation's decomposition (literals, pre/post, validator kind) is read through hook verif_describe_strings "
-         "and is an input of the model; regex-automata enters by contract. Open finding C02-start-position."),
+ "C02": ("proof", "Theorems over an executable Gallina model of the hex/regex string path (Aho-Corasick hit order, literal "
+         "confirmation, simple / DFA validators with the 4096-byte window and start_position, sorted insertion): sound for every "
+         "decomposition with the glue property, complete and exact for every decomposition with the split property outside the "
+         "recorded start_position class; both properties proved for every flat pattern and every run, and for alternations of "
+         "equal-length runs; SimpleValidator proved equal to the DFA contract; span contract (0 < len, off+len <= |mem|). "
+         "Correspondence: the implementation's decomposition is read through a guarded hook and full match lists are compared "
+         "with the model and the language specification on ~900 generated patterns x 4 inputs.", "DESIGN.md §7 C02, notes/C02.md",
+         "regex-automata / aho-corasick enter by contract; decompositions from alternations of unequal length are validated per "
+         "case only (open finding C02-alt-glue); the length-choice clause is false in general (open finding "
+         "C02-length-by-arrival) and proved only for the Greedy kind and the raw path; the window is not reached at run time. "
+         "Open findings C02-start-position, C02-alt-glue, C02-length-by-arrival."),
  "C03": ("proof", "Same Coq development as C02 (atomized path sound/complete for any decomposition, greedy matcher sound "
          "unconditionally, raw path exact) plus widen_correct (ordered-list equality for every HIR without word boundaries); "
          "correspondence: for ~900 generated regexes x modifier subsets, full match lists and `matches` verdicts equal the model "
          "run on the implementation's own decomposition (hook) and the reference semantics.", "DESIGN.md §7 C03, notes/C03.md",
          "regex-automata / regex-syntax / the HIR printer enter by contract; wide, fullword and word-boundary runners are covered "
          "by the correspondence and widen_correct only. Open findings C03-start-position, C03-alt-glue, "
-         "C03-fullword-single-length, C03-wide-boundary-rev-context."),
+         "C03-fullword-single-length, C03-wide-boundary-rev-context, C03-length-by-arrival."),
  "C04": ("proof", "C04_eval_eq_sem: for every well-formed condition, selected string and identifier stack, the evaluator model "
          "(early exits, accumulators, clamps, occurrence indexes, bound identifiers) equals the declarative three-valued "
          "semantics; rule verdict and totality corollaries; correspondence on rule verdicts and on integer sub-expression values "
